@@ -281,3 +281,89 @@ func H06Fixed() {
 	vndAssert(kept == any, "fixed-list-apply")
 	vndObserveInt("kept", len(res.Values))
 }
+
+// h06Parse parses one of the generator's expressions back into its tree (the hand-picked
+// history expressions are written as generator trees so that the reference is shared).
+func h06Leaf(l int) *h06Node { return &h06Node{kind: 0, leaf: l} }
+func h06Not(k *h06Node) *h06Node { return &h06Node{kind: 1, kids: []*h06Node{k}} }
+func h06And(k ...*h06Node) *h06Node { return &h06Node{kind: 2, style: 1, kids: k} }
+func h06Or(k ...*h06Node) *h06Node  { return &h06Node{kind: 3, kids: k} }
+
+func h06HistoryTree(i int) *h06Node {
+	switch i {
+	case 0:
+		return h06Not(h06Leaf(4)) // -.unit:U
+	case 1:
+		return h06Not(h06Leaf(9)) // -.unit:(U OR V)
+	case 2:
+		return h06And(h06Leaf(0), h06Not(h06Leaf(4))) // a:x AND -.unit:U
+	case 3:
+		return h06Leaf(4)
+	case 4:
+		return h06Or(h06Leaf(5), h06Leaf(0)) // .unit:V OR a:x
+	case 5:
+		return h06Not(h06And(h06Leaf(0), h06Leaf(5))) // -(a:x AND .unit:V)
+	case 6:
+		return h06And(h06Not(h06Leaf(4)), h06Not(h06Leaf(5)))
+	case 7:
+		return h06Or(h06Not(h06Leaf(4)), h06Leaf(1))
+	}
+	g := &h06Gen{idx: uint64(i)*0x9E3779B97F4A7C15 + 0x7654321}
+	return g.gen(2)
+}
+
+// H06History: one Filter object evaluates a sequence of results: R1, R1 again (a fresh
+// Result with the same contents), R2 (same configuration, other units), R1 once more.
+// Every answer equals the boolean meaning for that result alone: nothing carries over
+// from one result to the next.
+func H06History() {
+	tree := h06HistoryTree(vndParam("hexpr"))
+	var sb strings.Builder
+	tree.render(&sb)
+	expr := sb.String()
+	f, err := NewFilter(expr)
+	if err != nil {
+		panic("generated expression does not parse: " + expr + ": " + err.Error())
+	}
+	nv := 2
+	// symbolic: the key a, and the second measurement's unit and written unit in both results
+	st1 := &h06State{a: vndByte("a"), b: 'y', nm: 'N', s: '1', unit: []byte{'W', vndByte("unit")}, orig: []byte{0, 0}}
+	vndAssume(st1.unit[1] != 0)
+	if vndBool("hasorig") {
+		st1.orig[1] = vndByte("orig")
+		vndAssume(st1.orig[1] != 0)
+	}
+	st2 := &h06State{a: st1.a, b: st1.b, nm: st1.nm, s: st1.s, unit: []byte{'W', vndByte("unit2")}, orig: []byte{0, 0}}
+	vndAssume(st2.unit[1] != 0)
+	if vndBool("sameorig") {
+		st2.orig[1] = st1.orig[1] // the same written unit as the first result's measurement (or none)
+	}
+	seq := []*h06State{st1, st1, st2, st1}
+	for step, st := range seq {
+		res := h06Build(st)
+		m, err := f.Match(res)
+		vndAssert(err == nil, "match-no-error")
+		any := false
+		for i := 0; i < nv; i++ {
+			want := tree.ref(st, i)
+			vndAssert(m.Test(i) == want, "history-test-equals-boolean-meaning-of-this-result")
+			any = vndOr(any, want)
+		}
+		kept, err := f.Apply(res)
+		vndAssert(err == nil, "apply-no-error")
+		vndAssert(kept == any, "history-apply-reports-any")
+		j := 0
+		for i := 0; i < nv; i++ {
+			if tree.ref(st, i) {
+				ok := j < len(res.Values) && res.Values[j].Value == float64(i)
+				vndAssert(ok, "history-apply-keeps-matching-in-order")
+				j++
+			}
+		}
+		vndAssert(len(res.Values) == j, "history-apply-keeps-only-matching")
+		if step == 1 {
+			vndReach("h06:history")
+		}
+	}
+	vndObserveStr("expr", expr)
+}
